@@ -134,6 +134,7 @@ def check(ctx):
         # statements that run to the end of the line (annotation, pragma) keep their line break
         body = sep.join((x.rstrip("\n") + "\n") if ("@" in x or "pragma" in x or "//" in x) else x for x in sq)
         cases.append((sq, cname, pre + " " + body + " " + post if cname != "file" else body))
+    cases = C.uniq(cases, key=lambda c: (c[1], c[2]))
     impl = C.run_impl(ctx, "tree", [G.enc(c[2]) for c in cases], tag="s")
     have_model = ctx.lake_ok
     texts = [c[2] for c in cases]
